@@ -46,7 +46,7 @@ var Check = &run.Check{
 	Level: "exploration",
 	Rule: "case = synthesised commit list (0-30 commits with >= 1 change each, 1-8 authors, <= 15 created files, create/modify/delete/re-create of a deleted path, rename chains <= 4 per file " +
 		"printed in git's own notation: `dir/{a => b}`, `{a => b}/f`, `dir/{ => sub}/f`, `dir/{sub => }/f`, full-path `a => b` (root <-> directory, other directory + new name), for half of the root <-> directory moves the brace form with an empty prefix `{ => d}/f`, `{d => }/f`, renames back to an earlier name; " +
-		"in a third of the histories two authors differ only in letter case; " +
+		"in a third of the histories two authors differ only in letter case; every 201st history instead has one file touched by 100-130 distinct authors (one revision each) next to 1-3 files with 1-3 more revisions by one author; " +
 		"non-decreasing dates with many ties; conventional and free subjects; order of changes inside a commit shuffled); every 4th case goes through rendered log text + BuildMessageByInput; " +
 		"observed = GetTeamSummary, CalculateCodeAge, GetTopAuthors, BasicSummary, BuildChangeMap in-process, each on its own deep copy, then ShowChangeLogSummary + BuildChangeMap followed by the four summaries on ONE shared list (results must equal the fresh-copy results); every Nth case instead a real repository (gen/gitgen) with `coca git -b|-t|-a|-o|-m` tables " +
 		"judged against the fold of coca_reporter/commits.json; non-trivial = >= 4 commits, >= 2 authors, >= 1 rename and >= 1 deletion; distinct = hash of the op/notation/author-index/date-step structure (no names)",
@@ -59,7 +59,7 @@ var Check = &run.Check{
 		"changelog map: 'file' = the path the commit leaves the file at (new name for a rename); types are lower-case words, `type(scope)?: text`",
 		"author names are compared byte-wise, as git prints them (`Bob` and `bob` are two authors)",
 		"`{ => d}/f` / `{d => }/f` (empty common prefix, one empty side) is not printed by git 2.39 for a root <-> directory move (it prints `f => d/f`); it is synthesised as decoder input in its evident reading only",
-		"CLI: one flag per run, plus one invocation with -m -b -t -a -o whose re-rendered growing table is split into the rows each render adds (if that layout is not found nothing is judged; table layout is not part of the statement); code-age months are wall-clock dependent, only names and order are judged; `-m` prints at most 10 files per type, which ones is free",
+		"CLI: one flag per run, each section once more with --full --size N (N in 1..3: listings cut to a prefix, the basic summary table never), plus one invocation with -m -b -t -a -o whose re-rendered growing table is split into the rows each render adds (if that layout is not found nothing is judged; table layout is not part of the statement); code-age months are wall-clock dependent, only names and order are judged; `-m` prints at most 10 files per type, which ones is free",
 	},
 	Cases: cases,
 	Floor: func(tier string) int {
@@ -118,6 +118,13 @@ func runCase(c *run.Ctx, o *run.Outcome) {
 	}
 	r := c.Rng
 	hist, st := gitgen.SynthHistory(r.Fork(), gitgen.SynthOpts{MaxCommits: 30 + 30*(c.Index%2), MaxAuthors: 14, MaxFiles: 15, MaxChain: 4})
+	if c.Index%201 == 77 {
+		// "any number of commits, authors and files": one file touched by 100-130 distinct authors next to files with
+		// 1-3 more revisions by a single author (80 such histories in quick, 1000 in thorough)
+		hist = gitgen.SynthCrowd(r.Fork())
+		st = gitgen.SynthStats{}
+		o.Count("crowd_histories_one_file_100-130_authors", 1)
+	}
 	msgs := toCoca(hist)
 	witness := map[string]interface{}{"history": hist}
 	o.Witness = witness
@@ -179,7 +186,7 @@ func runCase(c *run.Ctx, o *run.Outcome) {
 		return
 	}
 	checkInProcess(o, msgs, exp, witness)
-	if c.Index < 64 {
+	if c.Index < 64 && len(hist) <= 60 {
 		o.Sample = map[string]interface{}{"history": hist, "team_summary": witness["team"], "top_authors": witness["top"], "change_map": witness["change_map"]}
 	}
 }
@@ -442,6 +449,7 @@ func runCLI(c *run.Ctx, o *run.Outcome) {
 		}
 	}
 	checkCombined(c, o, repo, exp, replayable, witness)
+	checkCut(c, o, repo, exp, replayable, witness)
 	if c.Index < 64*cliEvery(c.Tier) {
 		o.Sample = map[string]interface{}{"cli": true, "commits_json": parsed, "team_table": clip(outT, 1500)}
 	}
@@ -513,6 +521,70 @@ func checkCombined(c *run.Ctx, o *run.Outcome, repo string, exp *oracle.GitExpec
 	report(exp.CheckTop(top), "top-author rows")
 	if got, err := parseChangelog(res.Stdout); err == nil {
 		report(exp.CheckChangeMapTop(got, 10), "changelog blocks")
+	}
+}
+
+// checkCut runs every section with --full --size N, N in 1..3 (one N per CLI case). The three listings are cut to N
+// rows, legitimately; the basic summary is no listing: its table must still give commits, paths and authors.
+func checkCut(c *run.Ctx, o *run.Outcome, repo string, exp *oracle.GitExpect, replayable bool, witness map[string]interface{}) {
+	n := 1 + (c.Index/cliEvery(c.Tier))%3
+	size := fmt.Sprint(n)
+	o.Count("cli_cut_cases_size_"+size, 1)
+	runF := func(flag string, cols int) ([][]string, bool) {
+		res := common.RunCLI(c.CocaBin, repo, gitgen.Env(repo), "git", flag, "-f", "-s", size)
+		if res.TimedOut {
+			return nil, false
+		}
+		what := "`coca git " + flag + " -f -s " + size + "`"
+		if res.ExitCode != 0 || strings.Contains(res.Stderr, "panic:") || strings.Contains(res.Stderr, "fatal error") {
+			o.Violate("cli/crash", "%s exit %d: %s", what, res.ExitCode, head(res.Stderr+" "+res.Stdout))
+			return nil, false
+		}
+		witness["stdout"+flag+"-f-s"+size] = clip(res.Stdout, 3000)
+		_, rows, err := parseTable(res.Stdout, cols)
+		if err != nil {
+			o.Violate("cli/table-unreadable", "%s: %v", what, err)
+			return nil, false
+		}
+		return rows, true
+	}
+	report := func(ms []oracle.GitMismatch, flag string) {
+		for _, m := range ms {
+			o.Violate("cli/"+m.Sig, "`coca git %s -f -s %s`: %s", flag, size, m.Msg)
+		}
+	}
+	if rows, ok := runF("-b", 2); ok {
+		v := map[string]int{}
+		for _, r := range rows {
+			v[r[0]] = atoi(r[1])
+		}
+		o.Count("cli_basic_tables_with_full_and_size_below_4", 1)
+		report(exp.CheckBasicRows(v), "-b")
+	}
+	if rows, ok := runF("-o", 3); ok {
+		var tr []oracle.GitTopRow
+		for _, r := range rows {
+			tr = append(tr, oracle.GitTopRow{Name: r[0], Commits: atoi(r[1]), Lines: atoi(r[2])})
+		}
+		report(exp.CheckTopCut(tr, n), "-o")
+	}
+	if !replayable {
+		return
+	}
+	if rows, ok := runF("-t", 3); ok {
+		var tr []oracle.GitTeamRow
+		for _, r := range rows {
+			tr = append(tr, oracle.GitTeamRow{Name: r[0], Revs: atoi(r[1]), Authors: atoi(r[2])})
+		}
+		o.Count("cli_cut_team_rows", len(tr))
+		report(exp.CheckTeamCut(tr, n), "-t")
+	}
+	if rows, ok := runF("-a", 2); ok {
+		var names []string
+		for _, r := range rows {
+			names = append(names, r[0])
+		}
+		report(exp.CheckAgeCut(names, n), "-a")
 	}
 }
 
